@@ -821,7 +821,7 @@ def main(tier, seed):
     harness.setup()
     us = units(tier)
     chk.bounds = ["16 calculators (exhaustive)", "lengths in (0.5, 20), angles with |cos| < 0.9, sin > 0.1 and Gram determinant > 0.01", "symbol lists of length <= 3 (quick) / 4 (thorough) over a 3-letter alphabet"]
-    chk.outside = ["structure files as a solver claim (text formats: no solver theory): 8 interfaces that need no calculator-specific extras are evaluated on three concrete cells as ground facts; the other 8 interfaces are not covered", "FORCE_SETS pairing through parsers other than WIEN2k's symmetry distribution (3 displaced supercells, 3 choices of listed representative) and check_agreements_of_displacements", "load()/load_helper defaults", "CODATA vintage: constants are those of phonopy/units.py"]
+    chk.outside = ["structure files as a solver claim (text formats: no solver theory): 12 interfaces (RT_MODES) are evaluated on three concrete cells as ground facts; CRYSTAL, CP2K, FLEUR, WIEN2k writers (templates / calculator output) are not covered", "FORCE_SETS pairing through parsers other than WIEN2k's symmetry distribution (3 displaced supercells, 3 choices of listed representative), the LAMMPS id placement (ground facts, 4 atoms, all line orders) and check_agreements_of_displacements", "load()/load_helper defaults", "CODATA vintage: constants are those of phonopy/units.py"]
     chk.assumptions = ["decimal literals of units.py taken at face value as exact rationals, pi boxed to 20 digits, square roots as algebraic numbers",
                        "cos/sin uninterpreted with sin^2+cos^2=1; CrossHair verdict 'Confirmed over all paths' only"]
     chk.run_units(run_unit, us)
